@@ -306,6 +306,48 @@ def apply_edit(cs, name, a):
     return "ok"
 
 
+# ------------------------------------------------------------- F2: where faults may land
+_CLEANUP = None
+
+
+def cleanup_lines(prefix=None):
+    """(relative file, line) pairs of pycaption that lie inside `except` handlers, `finally` blocks or
+    __exit__/__del__ methods.  The fault model is a single exception arriving while the library runs its normal
+    path; cleanup code then runs to completion (an exception *during* cleanup is a double fault and is not injected:
+    code that restores state in a `finally` is exception-safe in the usual sense)."""
+    global _CLEANUP
+    if _CLEANUP is not None:
+        return _CLEANUP
+    import ast
+    prefix = prefix or _pycaption_prefix()
+    out = set()
+    for root, _dirs, files in os.walk(prefix):
+        for fn in files:
+            if not fn.endswith(".py"):
+                continue
+            path = os.path.join(root, fn)
+            rel = path[len(prefix):]
+            try:
+                with open(path, encoding="utf-8") as f:
+                    tree = ast.parse(f.read())
+            except Exception:
+                continue
+            for node in ast.walk(tree):
+                spans = []
+                if isinstance(node, (ast.Try, getattr(ast, "TryStar", ast.Try))):
+                    for h in node.handlers:
+                        spans.append((h.lineno, h.end_lineno))
+                    for st in node.finalbody:
+                        spans.append((st.lineno, st.end_lineno))
+                elif isinstance(node, (ast.FunctionDef, ast.AsyncFunctionDef)) and node.name in ("__exit__", "__aexit__", "__del__"):
+                    spans.append((node.lineno, node.end_lineno))
+                for a, b in spans:
+                    for ln in range(a, (b or a) + 1):
+                        out.add((rel, ln))
+    _CLEANUP = out
+    return out
+
+
 # ------------------------------------------------------------- F2: line-event hook
 class LineHook:
     """Counts 'line' events in frames whose code lives under <repo>/pycaption and
@@ -334,7 +376,8 @@ class LineHook:
                 else:
                     e[1] = self.count
                     e[2] += 1
-            if self.ordinal is not None and self.count == self.ordinal and self.fired_at is None:
+            if self.ordinal is not None and self.count >= self.ordinal and self.fired_at is None and \
+                    (frame.f_code.co_filename[len(self.prefix):], frame.f_lineno) not in cleanup_lines(self.prefix):
                 self.fired_at = "%s:%d" % (frame.f_code.co_filename[len(self.prefix):], frame.f_lineno)
                 raise InjectedFault("injected at line event %d (%s)" % (self.count, self.fired_at))
         return self._local
